@@ -53,6 +53,70 @@ fn seq_jobs(prop: &str, seed: u64, variant: &str, shards: u64, count: u64, secs:
         .collect()
 }
 
+fn sched_jobs(prop: &str, seed: u64, fam: &str, shards: u64, count: u64, secs: u64, sweep: bool) -> Vec<Job> {
+    (0..shards)
+        .map(|k| {
+            let mut a = sv(&["sched", "--prop", prop, "--seed", &seed.to_string(), "--family", fam, "--from", &k.to_string(), "--stride", &shards.to_string(), "--count", &count.to_string(), "--secs", &secs.to_string()]);
+            if sweep {
+                a.push("--sweep".into());
+            }
+            let mut j = Job::new(&format!("sched-{}-{}", fam, k), &bin("rel"), a);
+            j.timeout_s = secs * 3 + 120;
+            j.sig_suffix = format!(":family-{}", fam);
+            j
+        })
+        .collect()
+}
+
+fn free_jobs(prop: &str, seed: u64, variant: &str, fam: &str, shards: u64, count: u64, secs: u64) -> Vec<Job> {
+    (0..shards)
+        .map(|k| {
+            let mut j = Job::new(
+                &format!("free-{}-{}-{}", variant, fam, k),
+                &bin(variant),
+                sv(&["free", "--prop", prop, "--seed", &seed.to_string(), "--family", fam, "--from", &k.to_string(), "--stride", &shards.to_string(), "--count", &count.to_string(), "--secs", &secs.to_string()]),
+            );
+            j.timeout_s = secs * 2 + 120;
+            j.sig_suffix = format!(":family-{}", fam);
+            // a free-running child that is killed by the watchdog or dies is not attributable with certainty
+            match variant {
+                "tsan" => {
+                    j.env.push(("TSAN_OPTIONS".into(), "halt_on_error=1 exitcode=66 report_signal_unsafe=0".into()));
+                    j.report_codes = vec![66];
+                }
+                "asan" => {
+                    j.env.push(("ASAN_OPTIONS".into(), "detect_leaks=0:halt_on_error=1:exitcode=67".into()));
+                    j.report_codes = vec![67];
+                }
+                _ => {}
+            }
+            j
+        })
+        .collect()
+}
+
+fn miri_jobs(prop: &str, seed: u64, fam: &str, n: u64, ops: u64) -> Vec<Job> {
+    (0..n)
+        .map(|k| {
+            let mut j = Job::new(
+                &format!("miri-{}-{}", fam, k),
+                "cargo",
+                sv(&["+nightly", "miri", "run", "--offline", "--target-dir", "/verif/target/miri", "--", "free", "--prop", prop, "--seed", &seed.to_string(), "--family", fam, "--from", &(k * 3).to_string(), "--count", "3", "--ops", &ops.to_string(), "--threads", "3", "--run-deadline", "200"]),
+            );
+            j.cwd = Some("/verif/harness".into());
+            j.env.push(("MIRIFLAGS".into(), format!("-Zmiri-disable-isolation -Zmiri-ignore-leaks -Zmiri-seed={} -Zmiri-preemption-rate={}", seed * 1000 + k, if k % 2 == 0 { "0.05" } else { "0.01" })));
+            j.env.push(("CARGO_NET_OFFLINE".into(), "true".into()));
+            j.timeout_s = 420;
+            j.death = Death::Inconclusive;
+            j.report_codes = vec![1];
+            j.sig_suffix = format!(":family-{}", fam);
+            j
+        })
+        .collect()
+}
+
+const SCHED_RULE: &str = "run r = generator(seed, r): configuration (freelist kind x layout x min segment size x capacity 256..1024 x retries x 2..4 threads x single-threaded prelude building a free list of 0..6 segments with 0..64 bytes of fresh space left) + one generated program per thread (alloc bytes/aligned/typed, borrowed and owned, fill, drop, detach, leak, clone/drop arena, discard_freelist, send/receive owned buffers) executed under the hook-serialised scheduler with a strategy in {random switching p=5/30/70%, PCT d=1..3, window sweep: park thread t at atomic event k of operation j until the others finish or spin}, optional spurious compare_exchange_weak failures; family A = byte allocations only, family B = typed and aligned allocations too; distinct_nontrivial = distinct hashes of the schedule (sequence of thread choices) of runs with at least one preemption";
+
 fn seq_rule(prop: &str) -> String {
     let nt = match prop {
         "C01" => "at least one allocation served from a recycled free-list segment while two or more other allocations were live",
@@ -286,6 +350,58 @@ pub fn plan(prop: &str, tier: &str, seed: u64) -> Option<Plan> {
                 "remove_on_drop is documented to delete even read-only files and is checked under C13".into(),
             ];
         }
+        "C02" | "C07" | "C12" => {
+            p.eval_counter = "runs";
+            p.min_eval = 200;
+            p.min_distinct = 100;
+            p.rule = SCHED_RULE.to_string();
+            let (count, secs) = if quick { (6000, 30) } else { (400000, 900) };
+            p.jobs.extend(sched_jobs(prop, seed, "A", 6, count, secs, false));
+            p.jobs.extend(sched_jobs(prop, seed, "B", 6, count, secs, false));
+            p.jobs.extend(sched_jobs(prop, seed + 7, "A", 2, count / 8, secs, true));
+            p.jobs.extend(sched_jobs(prop, seed + 7, "B", 2, count / 8, secs, true));
+            match prop {
+                "C02" => {
+                    p.rule.push_str("; monitors: shadow map at every alloc return (overlap, data area), pattern check of every live range at every operation boundary of any thread, trace rule (no atomic write / zeroing by the arena inside a range that is live for another owner), free-list vs live ranges at quiescence; thorough adds free-running runs under ASan and TSan and Miri seeds");
+                    p.required_nonzero = sv(&["intact_checks", "trace_rule_checks", "preemptions", "family.A", "family.B", "window_sweep_runs"]);
+                    if !quick {
+                        if have("asan") {
+                            p.jobs.extend(free_jobs(prop, seed, "asan", "A", 4, 4000, 600));
+                            p.jobs.extend(free_jobs(prop, seed, "asan", "B", 4, 4000, 600));
+                        }
+                        if have("tsan") {
+                            p.jobs.extend(free_jobs(prop, seed, "tsan", "A", 4, 4000, 600));
+                            p.jobs.extend(free_jobs(prop, seed, "tsan", "B", 4, 4000, 600));
+                        }
+                        p.jobs.extend(miri_jobs(prop, seed, "A", 8, 16));
+                        p.jobs.extend(miri_jobs(prop, seed, "B", 8, 16));
+                    } else {
+                        p.jobs.extend(free_jobs(prop, seed, "rel", "A", 1, 600, 20));
+                        p.jobs.extend(free_jobs(prop, seed, "rel", "B", 1, 600, 20));
+                    }
+                }
+                "C07" => {
+                    p.rule.push_str("; monitor M-progress (bounded-progress restatement): a thread that performs K=300 atomic accesses with no successful write by anybody is descheduled in favour of the others; violation = every unfinished thread has performed more than B = (maximum_retries+1) x (capacity/8+2) x 8 accesses since the last successful write in the whole system; also: no node marked as removed may be linked at quiescence; the largest number of accesses without progress seen in calls that did complete is reported next to B");
+                    p.required_nonzero = sv(&["preemptions", "events", "freelist.optimistic", "freelist.pessimistic", "window_sweep_runs"]);
+                    p.assumptions.push("decides bounded progress under a fair scheduler (spinning threads yield); unbounded liveness and starvation under unfair schedules are not decidable by any finite run".into());
+                    p.jobs.extend(free_jobs(prop, seed, "rel", "A", 2, if quick { 1500 } else { 60000 }, if quick { 20 } else { 600 }));
+                }
+                _ => {
+                    p.rule.push_str("; monitors: M-hb vector clocks built from the orderings the code passes to its atomics (C++20 release sequences; SeqCst = AcqRel), checked at every zeroing event and every hand-out against the clock the releasing thread had when it called drop, and at the backing-store free against every other thread's last access; trace rule for atomic reads/writes of user data; plus ThreadSanitizer on free-running threads with plain user accesses and Miri (data-race detector with weak-memory emulation) on small programs");
+                    p.required_nonzero = sv(&["handover_checks", "final_free_checks", "preemptions", "family.A", "family.B"]);
+                    if have("tsan") {
+                        p.jobs.extend(free_jobs(prop, seed, "tsan", "A", if quick { 2 } else { 8 }, if quick { 400 } else { 20000 }, if quick { 30 } else { 900 }));
+                        p.jobs.extend(free_jobs(prop, seed, "tsan", "B", if quick { 2 } else { 8 }, if quick { 400 } else { 20000 }, if quick { 30 } else { 900 }));
+                    }
+                    p.jobs.extend(miri_jobs(prop, seed, "A", if quick { 3 } else { 16 }, 14));
+                    p.jobs.extend(miri_jobs(prop, seed, "B", if quick { 3 } else { 16 }, 14));
+                    p.assumptions.push("M-hb is exact for the serialised (sequentially consistent) executions the scheduler produces; genuinely weak behaviours are only sampled by Miri".into());
+                    p.assumptions.push("a watchdog kill of a free-running child is inconclusive, never a race".into());
+                }
+            }
+            p.assumptions.push("schedules are sampled (random, PCT depth <= 3, window sweep), not enumerated".into());
+            p.extra_prefixes = vec!["family.", "freelist.", "threads.", "strategy.", "window."];
+        }
         _ => return None,
     }
     Some(p)
@@ -310,6 +426,11 @@ pub fn main(args: &Args) -> i32 {
     let m = run_jobs(p.jobs.clone(), p.par, &prop);
     let mut extra: Vec<(String, J)> = vec![];
     extra.push(("steps".into(), J::Int(m.c("steps") as i128)));
+    for k in ["events", "preemptions", "intact_checks", "trace_rule_checks", "handover_checks", "final_free_checks", "refs_checks", "hang_verdicts", "window_sweep_runs", "spurious_cas_failures_injected", "watchdog_hang_sightings", "allocations", "pattern_verifications", "recycled_allocations", "cross_thread_transfers"] {
+        if m.cnt.contains_key(k) {
+            extra.push((k.to_string(), J::Int(m.c(k) as i128)));
+        }
+    }
     for pre in &p.extra_prefixes {
         let j = m.cnt_prefix(pre);
         if let J::Obj(o) = &j {
